@@ -28,12 +28,19 @@ def C06():
     from contracts.replay_docs import replayer as D
     return Property(
         "C06",
-        units=[ContractUnit(ShouldShow()), ContractUnit(ShouldShowElement()), ContractUnit(PageBreak()), ContractUnit(PageSettings())] + _strategy_units(),
+        units=[ContractUnit(ShouldShow()), ContractUnit(ShouldShowElement()), ContractUnit(PageBreak()), ContractUnit(PageSettings()), _render_unit()]
+        + _text_units() + _note_units() + _strategy_units(),
         level="proof",
-        technique="postconditions on the placement predicates and on the page-break / page-settings emitters (token view of the built string), VCs by z3",
+        technique="postconditions on the placement predicates and on the page-break / page-settings emitters (token view of the built string); "
+                  "PageRenderer.render: each component's marker chunk is present exactly when its placement condition holds for this page, at most once, "
+                  "in the fixed order break < title < subline < subline heading < figure < column headers < page-top headings < body < footnote < source < figure; "
+                  "the text / footnote / source emitters return '' or [] exactly without text",
         trusted_base=[SOLVERS, ENGINE, "round(): deterministic function with |round(x)-x| <= 1/2; floats treated as reals (L3)",
                       "RTF reader interprets \\paperw/\\paperh/\\marg* as the specification says (L4)"],
-        assumptions=["chunk order of PageRenderer.render / _encode_figure_only is not yet under contract in this check (listed in DESIGN 4/C06)"],
+        assumptions=["RenderPage abstracts each callee's chunk sequence by one marker chunk (render only appends / extends); the 2-level page_by variant "
+                     "of RenderPage runs in the thorough tier only (quick: no page_by headings and 1 level)",
+                     "RTFFigureService.encode_figure ('' without figures) and the figure-only / multi-section page loops (_encode_figure_only, "
+                     "_encode_multi_section) are not yet under contract in this check"],
         replayers={"services/document_service.py::RTFDocumentService.generate_page_break": R.replay_page_geometry,
                    "rtf/syntax.py::RTFSyntaxGenerator.generate_page_settings": R.replay_page_geometry,
                    "encoding/renderer.py::PageRenderer._should_show": R.replay_should_show,
@@ -56,7 +63,8 @@ def C08():
         "C08",
         units=[ContractUnit(ColWidths()), ContractUnit(InchToTwip()), ContractUnit(EncodeRows()), ContractUnit(CellAsRtf()), ContractUnit(RowAsRtf()),
                ContractUnit(EncodeSpanningRow()), ContractUnit(RenderBody(), variants=["levels1", "levels2", "no_boundaries"]),
-               ContractUnit(EncodeColumnHeader()), ContractUnit(RenderColumnHeaders())] + LEMMAS,
+               ContractUnit(EncodeColumnHeader()), ContractUnit(RenderColumnHeaders()), _render_unit(quick=("groups1",), thorough=("groups2",))]
+        + _note_units() + LEMMAS,
         level="proof",
         technique="comprehension invariant cum*total == col_width*P[i] (nonlinear real arithmetic) on the real Utils._col_widths; inductive lemma for prefix "
                   "sums; every data cell's width is col_widths[j] (constructor obligation in the real _encode), every cell ends with \\cellx round(1440*width), "
@@ -65,7 +73,7 @@ def C08():
                   "header cell (inherited full-table widths are replaced by the displayed columns' widths)",
         trusted_base=[SOLVERS, ENGINE, "floats treated as reals (L3): 'within one twip' is exact in the model"],
         assumptions=["width vectors reaching the page (RTFDocument.__init__ defaults/broadcast/inheritance, prepare_dataframe_for_body_encoding slicing, "
-                     "_encode_body_section) and footnote/source rendered as table are separate carriers not yet under contract in this check; "
+                     "_encode_body_section) are separate carriers not yet under contract in this check; "
                      "RenderColumnHeaders assumes their results: the page carries one relative width per displayed column and every header has widths",
                      "header labels are one per displayed column or one per own relative width (other shapes are configuration errors outside the property)",
                      "nested (multi-section) header lists are not covered by RenderColumnHeaders"],
@@ -83,7 +91,7 @@ def C10():
     from contracts import replayers as R
     return Property(
         "C10",
-        units=[ContractUnit(ConvertSpecialChars()), ContractUnit(SublineHeader()), ContractUnit(TextAsRtf())],
+        units=[ContractUnit(ConvertSpecialChars()), ContractUnit(SublineHeader()), ContractUnit(TextAsRtf())] + _text_units(),
         level="proof",
         technique="per-character obligations over a symbolic code point (all scalar values at once) inside the loop invariant of the real "
                   "TextContent._convert_special_chars: ASCII output, signed 16-bit \\u range, decode(piece) == character incl. surrogate pairs",
@@ -91,7 +99,7 @@ def C10():
                       "RTF 1.9 \\u / \\uc decode rule (L4)", "str.replace / LaTeX pass as uninterpreted functions (their output is the loop's input)"],
         assumptions=["domain: Unicode scalar values except C0/C1 controls and the raw RTF metacharacters \\ { } (C01's hypothesis on text)",
                      "the cell / paragraph / plain templates of TextContent._as_rtf and the subline_by heading use the escaped text exactly once (units "
-                     "TextAsRtf, SublineHeader); the *_format re-wrap call sites (encode_footnote/source/_encode_text) are not yet under contract in this check"],
+                     "TextAsRtf, SublineHeader); the paragraph_format re-wrap in _encode_text receives only escaped runs (unit EncodeText)"],
         replayers={"row.py::TextContent._convert_special_chars": R.replay_convert_special_chars},
         design_ref="4/C10, A13",
     )
@@ -239,7 +247,7 @@ def C01():
     units = [ContractUnit(u) for u in EM] + [ContractUnit(EncodeRows()), ContractUnit(EncodeCtx()), ContractUnit(ColWidths()),
              ContractUnit(ConvertSpecialChars()), ContractUnit(PageBreak()), ContractUnit(PageSettings()), ContractUnit(EncodeSingleFigure()),
              ContractUnit(GenerateColorTable()), ContractUnit(EncodeColumnHeader()), ContractUnit(RenderColumnHeaders()),
-             ContractUnit(SublineHeader()), ContractUnit(EncodeSpanningRow())] + LEMMAS
+             ContractUnit(SublineHeader()), ContractUnit(EncodeSpanningRow())] + _text_units() + _note_units() + LEMMAS
     return Property(
         "C01", units=units, level="proof",
         technique="measure contracts (brace balance / minimal prefix balance / ASCII / integral parameters) on the real emitters' f-strings, row-shape "
@@ -247,7 +255,7 @@ def C01():
         trusted_base=[SOLVERS, ENGINE, "homomorphism laws of bal/low/ascii over concatenation (DESIGN 1.5)", "RTF reader reads the literal chunk shapes as the RTF specification says (L4)",
                       "pydantic model construction = record construction after declared-type coercion"],
         assumptions=["user text is balanced w.r.t. unescaped braces (the property's own hypothesis)",
-                     "multi-section / figure skeletons, PageRenderer.render, encode_footnote/source and _encode_text are not yet under contract in "
+                     "multi-section / figure skeletons and the chunk join of PageRenderer.render are not yet under contract in "
                      "this check; totality of the pydantic/polars glue is assumed (L2)"],
         replayers={"row.py::TextContent._convert_special_chars": R.replay_convert_special_chars, "row.py::Utils._col_widths": R.replay_col_widths,
                    "services/document_service.py::": R.replay_page_geometry, "rtf/syntax.py::": R.replay_page_geometry,
@@ -255,6 +263,21 @@ def C01():
                    "encoding/unified_encoder.py::": R.replay_purity, "encoding/renderer.py::": D("wellformed"),
                    "services/encoding_service.py::": D("wellformed")},
         design_ref="4/C01, A14")
+
+
+def _text_units():
+    from contracts.textattrs import UNITS, LEMMAS
+    return [ContractUnit(u) for u in UNITS] + LEMMAS
+
+
+def _note_units():
+    from contracts.notes import UNITS
+    return [ContractUnit(u) for u in UNITS]
+
+
+def _render_unit(quick=("no_groups", "groups1"), thorough=("groups2",)):
+    from contracts.page_render import RenderPage
+    return ContractUnit(RenderPage(), variants=list(quick), thorough_variants=list(thorough))
 
 
 def _budget_units():
@@ -294,12 +317,14 @@ def C05():
     from contracts.spanning import EncodeSpanningRow
     from contracts.replay_docs import replayer as D
     return Property(
-        "C05", units=[ContractUnit(RenderBody()), ContractUnit(SublineHeader()), ContractUnit(EncodeSpanningRow())] + _strategy_units(), level="proof",
+        "C05", units=[ContractUnit(RenderBody()), ContractUnit(SublineHeader()), ContractUnit(EncodeSpanningRow()), _render_unit(quick=("groups1",))]
+        + _strategy_units(), level="proof",
         technique="ghost heading state (displayed value and position per page_by level) in the loop invariant of the real PageRenderer._render_body, "
                   "inner level loop unrolled for the property's 1-3 levels; obligations at every row emission",
         trusted_base=[SOLVERS, ENGINE, POLARS],
         assumptions=["str() injective on non-null keys; a non-null key's text is not the literal 'None'",
-                     "render step 7 (page-top headings from pageby_header_info) is not yet under contract in this check"],
+                     "render step 7 (page-top headings) is under contract for 1 level in the quick tier and 2 levels in the thorough tier; that "
+                     "pageby_header_info carries the first row's values is the strategies' contract (GetGroupHeaders)"],
         replayers={"encoding/renderer.py::PageRenderer._render_body": D("headings")}, design_ref="4/C05, A7")
 
 
@@ -310,13 +335,15 @@ def C07():
     from contracts.placement import ShouldShowElement
     return Property(
         "C07", units=[ContractUnit(PaginationBorders()), ContractUnit(UpdateCell()), ContractUnit(UpdateRow()), ContractUnit(ToList()), ContractUnit(Iloc()),
-                      ContractUnit(CellAsRtf()), ContractUnit(BorderAsRtf()), ContractUnit(ShouldShowElement())] + LEMMAS,
+                      ContractUnit(CellAsRtf()), ContractUnit(BorderAsRtf()), ContractUnit(ShouldShowElement()), _render_unit(quick=("no_groups",), thorough=())]
+        + _note_units() + LEMMAS,
         level="proof",
         technique="whole-matrix postcondition of the real _apply_pagination_borders per page kind (column-loop invariants 'columns < c done, everything else "
                   "as before'), whole-view contracts of BroadcastValue.update_cell/to_list, emitter contracts for the cell border words",
         trusted_base=[SOLVERS, ENGINE, POLARS, "copy.deepcopy returns a fresh equal object graph"],
-        assumptions=["page border_first on the first column-header row (_render_column_headers), the footnote/source border override in encode_footnote/"
-                     "encode_source and the multi-section first/last clauses are not yet under contract in this check"],
+        assumptions=["page border_first on the first column-header row (_render_column_headers) and the multi-section first/last clauses are not yet "
+                     "under contract in this check; the component override computed by the processor (_apply_footnote_source_borders) reaches the "
+                     "footnote/source emitters through render (unit RenderPage) and is applied on a copy (units EncodeFootnote/EncodeSource)"],
         replayers={}, design_ref="4/C07")
 
 
